@@ -6,6 +6,7 @@ Line-protocol driver for C02 (`sqfsmodel c02`).  One operation per input line, o
         checksum = xxh32 truncated to `hbits` bits (harness/weak_xxh.c), toy run-length codec (harness/h_c08.c)
         → ok W=<n> <chk-hex8>:<flags-hex>:<data-hex>… F=<n> <start>:<word>… I=<n> <size>:<start>:<fragidx>:<fragoff>:<sparse>:<ext>:<w,…|->… Z=<file length>:<fnv1a-64 of the output file>
         | err <kind>
+  spec <B> <mb> …same…     the queue-free reference `packRef` (`Sqfs/Spec/BlockProcSpec.lean`; `mb` is ignored) → same format
   state <B> <mb> …same…
         → the final bookkeeping of the processor (`finish_writes_everything`): backlog, io_queue length, sequence numbers,
           pool calls
@@ -15,6 +16,7 @@ Line-protocol driver for C02 (`sqfsmodel c02`).  One operation per input line, o
 -/
 import Driver.Util
 import Sqfs.Model.BlockProc
+import Sqfs.Spec.BlockProcSpec
 import Sqfs.Model.ToyCodec
 import Sqfs.Model.BuildEnv
 namespace Driver.C02
@@ -164,6 +166,13 @@ def step (line : String) : String :=
     | none => "bad-op"
     | some j =>
       match run j.P j.mb j.files with
+      | .ok o => showOutput o
+      | .error e => "err " ++ showErr e
+  | "spec" :: rest =>
+    match parseJob rest with
+    | none => "bad-op"
+    | some j =>
+      match packRef j.P j.files with
       | .ok o => showOutput o
       | .error e => "err " ++ showErr e
   | "state" :: rest =>
